@@ -64,7 +64,19 @@ PROPERTY RetLaws
 ENUM_CFG = "INIT Init\nNEXT EnumNext\n" + CONST + ENUM_CONST
 TRACE_CFG = "SPECIFICATION TraceSpec\n" + CONST + " HasRows = %(triples)s\n NBlk = %(nblk)d\nINVARIANT Verdict\n"
 NBLK = 64
-COVER_CFG = "SPECIFICATION CoverSpec\n" + CONST + "INVARIANT LawUpgradeCover\nINVARIANT LawTables\n"
+COVER_CFG = """SPECIFICATION CoverSpec
+CONSTANTS NF <- CTabNF
+ Latest <- CTabLatest
+ Added <- CTabAdded
+ Depr <- CTabDepr
+ Up <- CTabUp
+ UpOut <- CTabUpOut
+ CoverFeat <- CTabCover
+ NObj = 2
+ FullBounds = FALSE
+INVARIANT LawUpgradeCover
+INVARIANT LawTables
+"""
 MAX_COVER_FEATURES = 16   # 2^16 subsets per upgrade function: the bound of ProblemKindLatticeTables
 MAX_COMPONENT_FEATURES = 6  # a derived universe is replayed on all pairs of kinds: 6 features = 168 kinds
 QUICK_COMPONENT_KINDS = 64  # quick tier: only the derived universes with at most this many kinds (all-pairs replay)
@@ -125,10 +137,12 @@ def upgrade_profile():
     latest = V.LATEST_PROBLEM_KIND_VERSION
     added = {f: V.FEATURES_VERSIONS.get(f, (1, None))[0] for f in feats}
     sources, written, removed, links = set(), set(), set(), set()
+    touched = {}  # version v -> features the upgrade function of v reads or removes
     calls = 0
     for v in range(1, latest):
         fn = V.upgrade_functions_map[(v, v + 1)]
         av = [f for f in feats if added[f] <= v]
+        src, rem = set(), set()
         with time_limit(60):
             base = fn(set())
             single = {f: fn({f}) for f in av}
@@ -136,43 +150,52 @@ def upgrade_profile():
             written |= base | (full - set(av))
             for f in av:
                 if single[f] != base | {f} or fn(set(av) - {f}) - {f} != full - {f}:
-                    sources.add(f)
+                    src.add(f)
                 if f not in single[f]:
-                    removed.add(f)
+                    rem.add(f)
                 written |= single[f] - {f}
             for f, g in itertools.combinations(av, 2):
                 r = fn({f, g})
                 if r != single[f] | single[g]:  # a rule that needs both, or one that excludes the other
-                    sources |= {f, g}
+                    src |= {f, g}
                     links.add((f, g))
                     written |= r - {f, g}
                 elif ((single[f] - {f}) & (single[g] - {g})) - base:  # two rules that write the same feature
                     links.add((f, g))
             calls += 2 + 2 * len(av) + len(av) * (len(av) - 1) // 2
+        touched[v] = src | rem
+        sources |= src
+        removed |= rem
     deprecated = {f for f in feats if V.FEATURES_VERSIONS.get(f, (1, None))[1] is not None}
     return {"features": feats, "added": added, "latest": latest, "sources": sources, "written": written,
-            "removed": removed, "deprecated": deprecated, "links": links, "calls": calls}
+            "removed": removed, "deprecated": deprecated, "links": links, "calls": calls, "touched": touched}
 
 
 def upgrade_closure(prof, feats):
-    """Smallest superset of `feats` that no upgrade function leaves (every subset is tried, so that a
-    non-monotone function cannot hide a result)."""
+    """Smallest superset of `feats` that no upgrade function leaves.  Up to 8 features every subset is tried (a
+    non-monotone function cannot hide a result); beyond, the empty set, singletons, pairs and the whole set (the
+    cover stage tabulates every subset anyway and extends its universe by what it meets)."""
+    import itertools
+
     V = versioning()
     X = set(feats)
-    while True:
-        if len(X) > MAX_COVER_FEATURES:
-            return X
+    while len(X) <= MAX_COVER_FEATURES:
         Y = set(X)
         for v in range(1, prof["latest"]):
             fn = V.upgrade_functions_map[(v, v + 1)]
             av = sorted(f for f in X if prof["added"].get(f, 1) <= v)
             with time_limit(60):
-                for m in range(2 ** len(av)):
-                    Y |= fn({av[i] for i in range(len(av)) if m >> i & 1})
+                if len(av) <= 8:
+                    probes = ({av[i] for i in range(len(av)) if m >> i & 1} for m in range(2 ** len(av)))
+                else:
+                    probes = itertools.chain([set(), set(av)], ({f} for f in av), (set(p) for p in itertools.combinations(av, 2)))
+                for S in probes:
+                    Y |= fn(S)
         Y &= set(prof["features"])  # a result that is no ProblemKind feature stays outside: UpOut counts it
         if Y == X:
-            return X
+            break
         X = Y
+    return X
 
 
 def order_features(prof, feats):
@@ -226,35 +249,74 @@ def n_kinds(prof, U):
     return 2 ** len(U) + sum(2 ** sum(1 for f in U if prof["added"].get(f, 1) <= v) for v in range(1, prof["latest"] + 1))
 
 
-def check_upgrade_tables(ctx, name, U):
+def cover_tables(U, prof, full):
+    """The real version tables on the (large) universe U for the cover stage: the upgrade functions tabulated
+    on every subset as bit masks, and the features the enumerated kinds of each version are made of."""
+    V = versioning()
+    nf = len(U)
+    bit = {f: i for i, f in enumerate(U)}
+    latest = V.LATEST_PROBLEM_KIND_VERSION
+    added = [V.FEATURES_VERSIONS.get(f, (1, None))[0] for f in U]
+    depr = [V.FEATURES_VERSIONS.get(f, (1, None))[1] or 0 for f in U]
+    upm, upx, cover = [], [], []
+    outside = set()
+    for v in range(1, latest):
+        fn = V.upgrade_functions_map[(v, v + 1)]
+        row, rowx = [], []
+        with time_limit(120):
+            for m in range(2 ** nf):
+                R = fn({U[i] for i in range(nf) if m >> i & 1})
+                row.append(sum(1 << bit[f] for f in R if f in bit))
+                out = [f for f in R if f not in bit]
+                rowx.append(len(out))
+                outside.update(out)
+        upm.append(row)
+        upx.append(rowx)
+        avail = [i + 1 for i in range(nf) if added[i] <= v]
+        if full:
+            cover.append(avail)
+        else:  # features the function of v reads or removes, and features that do not count in v
+            touched = prof["touched"][v]
+            cover.append([i for i in avail if U[i - 1] in touched or (depr[i - 1] and depr[i - 1] <= v)])
+    return {"nf": nf, "latest": latest, "added": added, "depr": depr, "upm": upm, "upx": upx, "cover": cover, "names": U,
+            "outside": sorted(outside)}
+
+
+def check_upgrade_tables(ctx, name, U, prof, full):
     """T1 on the whole upgrade tables (ProblemKindLatticeUpgrade): UpgradeMonotone (both directions) on every
     covering pair of kinds of one version, UpgradeWF on every kind, over the universe of all features the real
     upgrade functions touch."""
     if len(U) > MAX_COVER_FEATURES:
         raise MachineryError("the upgrade functions touch %d features: more than the cover stage tabulates" % len(U))
     d = ctx.sub(name)
-    tab = tables(U)
-    if not any(r != sorted(i + 1 for i in range(len(U)) if m >> i & 1) for row in tab["up"] for m, r in enumerate(row)):
+    while True:
+        tab = cover_tables(U, prof, full)
+        more = [f for f in tab["outside"] if f in prof["features"]]
+        if not more or len(U) + len(more) > MAX_COVER_FEATURES:
+            break
+        U = order_features(prof, list(U) + more)  # a result the probes did not show: the universe grows
+    if not any(r != m for row in tab["upm"] for m, r in enumerate(row)):
         raise MachineryError("cover universe %s: every upgrade function is the identity on it: vacuous" % name)
+    if not any(len(c) >= 2 for c in tab["cover"]):
+        raise MachineryError("cover universe %s: no version with two features to combine: vacuous" % name)
     tpath = os.path.join(d, "tables.json")
     tlc.write_json(tpath, tab)
-    cfgd = {"full": "FALSE"}
-    res = tlc.run_tlc("ProblemKindLatticeUpgrade", COVER_CFG % cfgd, os.path.join(d, "t1"), env={"TABLES": tpath}, timeout=3000)
+    res = tlc.run_tlc("ProblemKindLatticeUpgrade", COVER_CFG, os.path.join(d, "t1"), env={"TABLES": tpath}, timeout=3000)
     if res.error:
         raise MachineryError(res.error)
     ctx.add_tlc("T1 %s (upgrade laws on covering pairs of kinds)" % name, res)
-    ctx.cov["evaluations"] += sum(len(r) for r in tab["up"])
+    ctx.cov["evaluations"] += sum(len(r) for r in tab["upm"])
     expected = [p[1] for p in res.printed if isinstance(p, list) and len(p) == 2 and p[0] == "COVER"]
-    nav = [sum(1 for a in tab["added"] if a <= v) for v in range(1, tab["latest"])]
+    nav = [len(c) for c in tab["cover"]]
     if not expected or expected[0] != 1 + sum(2 ** n + n * 2 ** n // 2 for n in nav):
-        raise MachineryError("cover stage: TLC counts %r cases for %r available features" % (expected, nav))
+        raise MachineryError("cover stage: TLC counts %r cases for %r features per version" % (expected, nav))
     if res.violated:
         tr = [s["vars"] for s in res.trace]
         objs = tr[-1].get("objs", []) if tr else []
         names = lambda k: {"version": k.get("dv"), "features": [U[i - 1] for i in sorted(k.get("f", {}).get("$set", []))]}
         V = versioning()
 
-        def upgraded(k):  # witness data only: the real functions applied to the kind of the counterexample
+        def upgraded(k):  # witness data only: the real functions applied to the kinds of the counterexample
             out, F, v = {}, set(k["features"]), k["version"]
             with time_limit(5):
                 while isinstance(v, int) and 1 <= v < tab["latest"]:
@@ -263,15 +325,15 @@ def check_upgrade_tables(ctx, name, U):
                     out["to version %d" % v] = sorted(F)
             return out
 
-        kinds = [names(k) for k in objs if isinstance(k, dict) and isinstance(k.get("f"), dict)]
+        kinds = [names(k) for k in objs if isinstance(k, dict) and isinstance(k.get("f"), dict) and k.get("dv")]
         ctx.violation("T1|" + res.violated,
-                      "the upgrade functions of problem_kind_versioning violate %s (upgrading preserves <= / upgraded kinds "
-                      "are well formed) on two kinds of one version that differ in one feature" % res.violated,
-                      {"universe": U, "tables": {k: tab[k] for k in ("added", "depr", "latest")}, "kinds": kinds,
+                      "the upgrade functions of problem_kind_versioning violate %s (upgrading preserves <= / an upgraded kind "
+                      "is a well-formed kind of the new version) on kinds of one version that differ in one feature" % res.violated,
+                      {"universe": U, "tables": {k: tab[k] for k in ("added", "depr", "latest", "cover")}, "kinds": kinds,
                        "upgraded": [upgraded(k) for k in kinds], "trace": tr})
     elif res.distinct != expected[0]:
         raise MachineryError("cover stage visited %d states, expected %d" % (res.distinct, expected[0]))
-    return {"features": len(U), "states": res.distinct}
+    return {"features": len(U), "kinds_made_of": [[U[i - 1] for i in c] for c in tab["cover"]], "states": res.distinct}
 
 
 class Recorder:
@@ -402,12 +464,16 @@ def describe_kind(U, kinds, kid):
     return {"version": (None if dv == 0 else dv), "features": [U[i] for i in range(len(U)) if m >> i & 1]}
 
 
-def check_universe(ctx, name, U, full, triples, bounds, only=None, coverage=False, corrupt=None):
-    """T1 + T2 + T3 for one feature universe.  `only` = list of (a, b, al) restricts the replay (--replay)."""
+def check_universe(ctx, name, U, full, triples, bounds, only=None, coverage=False, corrupt=None, derived=False):
+    """T1 + T2 + T3 for one feature universe.  `only` = list of (a, b, al) restricts the replay (--replay).
+    `derived`: an interaction universe computed from the upgrade functions (unpadded in the quick tier)."""
     V = versioning()
     d = ctx.sub(name)
     tab = tables(U)
-    if not (any(tab["depr"]) and 2 in tab["added"] and 3 in tab["added"] and 1 in tab["added"]):
+    if derived:
+        if not any(r != sorted(i + 1 for i in range(len(U)) if m >> i & 1) for row in tab["up"] for m, r in enumerate(row)):
+            raise MachineryError("derived universe %s: every upgrade function is the identity on it: vacuous" % name)
+    elif not (any(tab["depr"]) and 2 in tab["added"] and 3 in tab["added"] and 1 in tab["added"]):
         raise MachineryError("universe %s lacks deprecated / version-2 / version-3 features: vacuous" % name)
     tpath = os.path.join(d, "tables.json")
     tlc.write_json(tpath, tab)
